@@ -1,0 +1,19 @@
+//! Verification hooks. Compiled only with `--cfg discv5_verif`; nothing in here (or in the other
+//! `#[cfg(discv5_verif)]` items of the crate) exists in a normal build.
+//!
+//! The hooks expose crate-private types to an external model-based verification harness and let
+//! it pass virtual time; they do not change the behaviour of any existing code path.
+
+/// Facade: the session cache type.
+pub use crate::lru_time_cache::LruTimeCache;
+
+/// The IP-diversity filters used for the routing table when `ip_limit` is configured.
+pub fn ip_filters() -> (
+    Box<dyn crate::kbucket::filter::Filter<crate::Enr>>,
+    Box<dyn crate::kbucket::filter::Filter<crate::Enr>>,
+) {
+    (
+        Box::new(crate::kbucket::filter::IpTableFilter),
+        Box::new(crate::kbucket::filter::IpBucketFilter),
+    )
+}
